@@ -4,6 +4,7 @@ import SpecKitV.Props.C03
 import SpecKitV.Props.SchedGen
 import SpecKitV.Props.VecGen
 import SpecKitV.Props.Utils
+import SpecKitV.Props.SchedGlueGen
 
 #print axioms ltfStep_rL
 #print axioms ltfStep_bin
@@ -39,3 +40,23 @@ import SpecKitV.Props.Utils
 #print axioms gen_vec_walk_eq_plan
 #print axioms gen_round_half_up_eq_model
 #print axioms gen_round_half_up_eq_floor
+#print axioms SchedGlue.gen_require_args_eq
+#print axioms SchedGlue.gen_ltf_post_eq
+#print axioms SchedGlue.gen_vec_post_glue_eq
+#print axioms SchedGlue.gen_new_post_glue_eq
+#print axioms SchedGlue.gen_ltf_plan_eq_model
+#print axioms SchedGlue.gen_vec_plan_eq_model
+#print axioms SchedGlue.gen_new_plan_eq_model
+#print axioms SchedGlue.gen_lpsd_forward
+#print axioms SchedGlue.gen_lpsd_plan_eq_ltf
+#print axioms SchedGlue.gen_lpsd_plan_eq_model
+#print axioms SchedGlue.gen_plan_missing_key
+#print axioms SchedGlue.gen_lpsd_missing_key
+#print axioms SchedGlue.planDict_keys
+#print axioms SchedGlue.gen_plan_wiring
+#print axioms SchedGlue.planDict_overlap
+#print axioms SchedGlue.gen_ltf_plan_props
+#print axioms SchedGlue.gen_lpsd_plan_props
+#print axioms SchedGlue.gen_new_plan_props
+#print axioms SchedGlue.gen_vec_plan_props
+#print axioms SchedGlue.gen_plan_overlap_key
